@@ -19,26 +19,7 @@ EXPLANATION = ('R11.1 energy: d/dt(-G m1 m2/2a) + sum C spin dspin/dt + sum host
 EXPLANATION += ' R11.10 the array twin: every interpreted call repeated with array arguments (mutable cells) returns the scalar values element for element and leaves the arguments intact.'
 
 
-def eps_mask(node, pt=None):
-    """float_eps is an infinitesimal: |x| > eps is true unless x is exactly 0 at the (possibly pinned) sample point"""
-    a, b = node.args
-    def is_eps(n): return n.op == 'atom' and n.val[0] == 'float_eps'
-    if is_eps(b): other, flip = a, False
-    elif is_eps(a): other, flip = b, True
-    else: return None
-    zero = False
-    if pt is not None:
-        try:
-            zero = pt.ev(other) == (0, 0)
-        except X.Resample:
-            zero = False
-    op = node.val
-    if flip:
-        op = {'<': '>', '<=': '>=', '>': '<', '>=': '<='}.get(op, op)
-    # other (op) eps, with other = |x| >= 0
-    if zero:
-        return {'>': 0, '>=': 0, '<': 1, '<=': 1}.get(op)
-    return {'>': 1, '>=': 1, '<': 0, '<=': 0}.get(op)
+from .common import eps_mask        # (one definition: answered only for quantities that are non-negative by their shape)
 
 
 def fdefs(m, names):
